@@ -1,6 +1,8 @@
 mod bitmask;
 mod group;
 mod tag;
+#[cfg(feature = "verif-hooks")]
+pub(crate) mod verif;
 
 use self::bitmask::BitMask;
 pub(crate) use self::{
